@@ -279,7 +279,7 @@ func init() {
 		// --- runtime / os / log
 		"runtime.GOMAXPROCS": func(it *Interp, a []Value) Value { return it.intV(4) },
 		"runtime.NumCPU":     func(it *Interp, a []Value) Value { return it.intV(4) },
-		"runtime.Gosched":    func(it *Interp, a []Value) Value { it.yieldReq = true; return nil },
+		"runtime.Gosched":    func(it *Interp, a []Value) Value { it.yieldReq = true; it.goschedReq = true; return nil },
 		"runtime.KeepAlive":  noop,
 		"runtime.SetFinalizer": noop,
 		"runtime.GC":         noop,
